@@ -239,7 +239,9 @@ func m1vCorpus(c *corr.Ctx) {
 }
 
 // m1vOverflowCase feeds three frames (600 KiB, 600 KiB, small) through the real encoder, drops the
-// last packet of the first and checks C07 on the third (its predecessor arrives intact).  The model
+// last packet of the first (so that its 600 KiB slice stays buffered: the second frame then exceeds the
+// maximum while its big slice is being collected) and checks C07 on the third (its predecessor arrives
+// intact).  The model
 // is not consulted (megabytes of hex); the property oracle is.
 func m1vOverflowCase(c *corr.Ctx, name string) {
 	ssrc, seq0 := uint32(1), uint16(65000)
@@ -247,10 +249,15 @@ func m1vOverflowCase(c *corr.Ctx, name string) {
 	e.Init() //nolint:errcheck
 	d := &rtpmpeg1video.Decoder{}
 	d.Init() //nolint:errcheck
+	// picture header, one 600 KiB slice, one small slice (sent alone in the last packet)
 	bigFrame := func(b byte) []byte {
 		f := []byte{0, 0, 1, 0, 0x12, 0x08}
 		f = append(f, 0, 0, 1, 1)
 		for i := 0; i < 600*1024; i++ {
+			f = append(f, b)
+		}
+		f = append(f, 0, 0, 1, 2)
+		for i := 0; i < 1440; i++ {
 			f = append(f, b)
 		}
 		return f
